@@ -121,7 +121,7 @@ func RunParent(spec *Spec, opt Options) int {
 	if opt.Only != "" {
 		n = 1
 	}
-	dir := filepath.Join(opt.VerifDir, ".build", "run", spec.ID+"-"+opt.Tier)
+	dir := filepath.Join(opt.VerifDir, ".build", "run", fmt.Sprintf("%s-%s-%d", spec.ID, opt.Tier, os.Getpid()))
 	os.RemoveAll(dir)
 	os.MkdirAll(dir, 0o755)
 
@@ -353,6 +353,9 @@ func RunParent(spec *Spec, opt Options) int {
 	if opt.Only == "" {
 		writeEvidence(m, opt, wall, len(fresh), sigs)
 	}
+	if code == 0 {
+		os.RemoveAll(dir) // worker logs are only kept for runs that need attention
+	}
 	verdict := map[int]string{0: "held", 1: "violated", 2: "inconclusive"}[code]
 	fmt.Printf("%s %s seed=%d: %s on %d evaluations (%d distinct non-trivial) in %.1fs\n", spec.ID, opt.Tier, opt.Seed, verdict,
 		m.Evaluations, distinctCount(m), wall)
@@ -476,6 +479,10 @@ func writeEvidence(m *Merged, opt Options, wall float64, fresh int, knownSigs []
 		"violations":  fresh,
 	}
 	b, _ := json.MarshalIndent(ev, "", " ")
-	os.MkdirAll(filepath.Join(opt.VerifDir, "evidence"), 0o755)
-	os.WriteFile(filepath.Join(opt.VerifDir, "evidence", m.Spec.ID+".json"), b, 0o644)
+	evDir := filepath.Join(opt.VerifDir, "evidence")
+	if d := os.Getenv("VERIF_EVIDENCE_DIR"); d != "" {
+		evDir = d // runs against scratch copies (mutants) must not overwrite the evidence of the real tree
+	}
+	os.MkdirAll(evDir, 0o755)
+	os.WriteFile(filepath.Join(evDir, m.Spec.ID+".json"), b, 0o644)
 }
